@@ -9,6 +9,8 @@ import (
 
 	"github.com/ClickHouse/ch-go"
 	"github.com/ClickHouse/ch-go/proto"
+	sdktrace "go.opentelemetry.io/otel/sdk/trace"
+	"go.opentelemetry.io/otel/sdk/trace/tracetest"
 
 	"chgosim/choice"
 	"chgosim/gen"
@@ -94,7 +96,20 @@ func DrawConf(c *choice.Stream) *Conf {
 	return cf
 }
 
+// otelSDK: when set (C12), clients with instrumentation enabled use an SDK
+// tracer provider with a synchronous in-memory exporter instead of the global
+// no-op provider, so that span recording code really runs.
+var otelSDK bool
+
 func (cf *Conf) Options() ch.Options {
+	o := cf.options()
+	if (cf.Otel || otelOverride) && otelSDK {
+		o.TracerProvider = sdktrace.NewTracerProvider(sdktrace.WithSyncer(tracetest.NewInMemoryExporter()))
+	}
+	return o
+}
+
+func (cf *Conf) options() ch.Options {
 	return ch.Options{
 		ProtocolVersion:              cf.ClientRev,
 		Compression:                  cf.Comp,
